@@ -5,7 +5,7 @@ mod shared;
 
 use crate::{
     query::*,
-    schema::{InputId, TypeId},
+    schema::{input_is_recursive_without_indirection, InputId, TypeId},
     type_qualifiers::GraphqlTypeQualifier,
     GeneralError, GraphQLClientCodegenOptions,
 };
@@ -331,17 +331,25 @@ where
                 Span::call_site(),
             );
             let provided_value = object_map.get(name);
-            match provided_value {
-                Some(default_value) => {
-                    let value = graphql_parser_value_to_literal(
-                        default_value,
-                        r#type.id,
-                        r#type.is_optional(),
-                        query,
-                    );
-                    quote!(#field_name: #value)
-                }
-                None => quote!(#field_name: None),
+            let value = match provided_value {
+                Some(default_value) => graphql_parser_value_to_literal(
+                    default_value,
+                    r#type.id,
+                    r#type.is_optional(),
+                    query,
+                ),
+                None => quote!(None),
+            };
+            // Members on a cycle of input types are boxed in the generated struct.
+            let is_boxed = r#type
+                .id
+                .as_input_id()
+                .map(|input_id| input_is_recursive_without_indirection(input_id, query.schema))
+                .unwrap_or(false);
+            if is_boxed {
+                quote!(#field_name: Box::new(#value))
+            } else {
+                quote!(#field_name: #value)
             }
         })
         .collect();
